@@ -15,7 +15,8 @@ def swarm(rng):
     cfg.update({"p_objref": rng.choice([0.7, 0.9]), "p_mirror": rng.choice([0.0, 0.4]), "n_spaces": rng.choice([3, 4, 5]), "max_depth": rng.choice([2, 2, 3]),
                 "n_cells": rng.choice([1, 2]), "n_refs": rng.choice([1, 2]), "n_steps": rng.choice([10, 16, 24]),
                 "p_sformula": rng.choice([0.3, 0.6]), "p_bases": rng.choice([0.5, 0.8]), "p_modelref": 0.1, "recalc": False,
-                "p_check": 0.0, "reload": rng.random() < 0.5, "reload_zip": rng.random() < 0.5})
+                "p_check": 0.0, "reload": rng.random() < 0.5, "reload_zip": rng.random() < 0.5,
+                "base_switch": rng.random() < 0.35})
     return cfg
 
 
@@ -76,9 +77,6 @@ class RebindOracle(history.Oracle):
                                     {"space": s.path(), "name": n, "definer": d.path(), "got": norm(got), "want": norm(want), "after": strip(op)})
             # ItemSpaces: any object inside the base's tree is bound to the corresponding object of the dynamic tree
             if s.formula is not None and dr:
-                ret = s.formula.get("ret")
-                if ret and "base" in ret:
-                    continue
                 args = [1 for p, dflt in s.formula["params"] if dflt is None]
                 try:
                     inst_live = live(*args)
